@@ -13,11 +13,23 @@ let handle = function
     let sym = nn sym and aead = nn aead and cs = nn cs in
     let (c, key, iv, info) = v2_setup sym aead cs (bytes_of_hex sk) (bytes_of_hex salt) in
     hex_of_bytes (Seipd2.seipd2_enc (Prims.seal aead sym) c key iv info (bytes_of_hex p))
-  | ["v2dec"; sym; aead; cs; sk; salt; ct] ->
+  | "v2dec" :: sym :: aead :: cs :: sk :: salt :: ct :: sched ->
     let sym = nn sym and aead = nn aead and cs = nn cs in
     let (c, key, iv, info) = v2_setup sym aead cs (bytes_of_hex sk) (bytes_of_hex salt) in
-    let (out, ok) = Seipd2.seipd2_stream_dec (Prims.aopen aead sym) c key iv info (bytes_of_hex ct) in
-    (if ok then "OK " else "ERR ") ^ hex_of_bytes out
+    let ctb = bytes_of_hex ct in
+    let (out, ok) = Seipd2.seipd2_stream_dec (Prims.aopen aead sym) c key iv info ctb in
+    let spec = (if ok then "OK " else "ERR ") ^ hex_of_bytes out in
+    (match sched with
+     | [consumer; reqs] ->
+       let rl = if reqs = "_" || reqs = "" then [] else Stdlib.List.map int_of_string (Stdlib.String.split_on_char ',' reqs) in
+       let ra = Array.of_list rl in
+       let req (i : BinNums.coq_N) : BinNums.coq_N =
+         if consumer = "0" || Array.length ra = 0 then n_of_int 1048576
+         else n_of_int (Stdlib.max 1 (Stdlib.min 1048576 ra.((int_of_n i) mod Array.length ra))) in
+       let (mo, oc) = Seipd2Machine.a_run (Prims.aopen aead sym) c key iv info req ctb in
+       let mach = (match oc with Seipd2Machine.AClean -> "OK " | Seipd2Machine.AFailed -> "ERR " | Seipd2Machine.AOutOfFuel -> "FUEL ") ^ hex_of_bytes mo in
+       if mach = spec then spec else "MODEL-SPLIT spec=" ^ Stdlib.String.sub spec 0 (Stdlib.min 40 (Stdlib.String.length spec)) ^ " machine=" ^ Stdlib.String.sub mach 0 (Stdlib.min 40 (Stdlib.String.length mach))
+     | _ -> spec)
   | "v1dec" :: sym :: key :: mode :: max :: ct :: sched ->
     let symn = nn sym in
     let k = bytes_of_hex key in
